@@ -53,6 +53,22 @@ for the array `ic` that `interconnects` answers; `sdf_cfg_exists`: a top-level b
   every written signal; on files without top-level block (every 8th case) the real `df.interconnects()` raises `TypeError` and
   the driver must answer `raise:interconnects` (`sdfDelay = none`) — a Python exception of the two annotation calls agrees with
   that error token only, an exception anywhere else with nothing. A mismatch is a broken tie.
+  **Hypotheses evaluated per case (audit-2 finding 10):** for every compared `sdf-wave` case the driver evaluates the hypotheses of
+  `sdf_sta_window` / `sdf_path_window` / `sdf_text_sta_window` on the REAL objects: `Net.wfB`, `orderOKB`, `forksOKB` (when
+  stripping), `readsDrivenB` on the real circuit and its real topological order (`simopscert`, tag `hyp:sdfwave:net:*`) and
+  `rawNonneg` on the model's reading of the real SDF text (`sdfwavehyp`, tag `hyp:sdfwave:nonneg:*`); `4 ≤ capsMin` is fixed by the
+  harness (`c_caps_min = 4`). The generator promises scheduled cells and values ≥ 0: a case outside is a broken tie.
+* **Restrictions (stated, not proved away):**
+  - `huniq` of `sdf_delays_are_wave_delays(_net)` / `sdf_interconnect_delays_are_wave_delays(_net)` — all entries that land on
+    the same (line, input polarity) carry the same normalised value lists — EXCLUDES cells where two IOPATH entries name the
+    same input pin with DIFFERENT values, in particular multi-output cells (`(IOPATH A Z …) (IOPATH A ZN …)`, a full adder's
+    `A → S` and `A → CO`): WaveSim keeps one delay per input LINE, the code lets the LAST entry of the file win, and there is no
+    last-writer theorem here — for such files the landing theorems are silent (the tie `sdfwave` still compares the arrays);
+  - the STA theorems (`sdf_sta_window`, `sdf_path_window`, `sdf_text_sta_window`) use the SDF data only through `≥ 0`
+    (`sdfDelay_nonneg`): they are `C04.wave_timing_all_circuits` at the SDF-derived table; the link "window / arrival =
+    sum of the SDF values of the entries naming the path lines" is the conjunction with the landing theorems, carried out only
+    in the demo (`decide +kernel`), not as a general corollary;
+  - `netPinLine` / `netIcLine` answer `none` both where the code warns-and-skips and where it raises (audit-2 finding 4).
 * **Trusted / sampled**: that lark reads the grammar as the model does, that the tables describe the real circuit (exported by
   structural search), that the real `SimOps` / `_wave_eval` compute the model's rows and results (C01/C03/C08 correspondences),
   `float32` exactness on the grid. -/
